@@ -17,6 +17,7 @@ CONSTANTS
   Paces = {"burst"}
   DevSpin = FALSE
   DevNoUnblock = FALSE
+  DevAliasFlush = FALSE
 INIT BInit
 NEXT BNext
 VIEW bview
